@@ -7,29 +7,43 @@ Import ListNotations.
 Local Open Scope Q_scope.
 
 (* observed outcome of one call: nothing, points, or an exception *)
-Inductive obs := ONone | OPts (pts : list (list fl)).
+Inductive obs := ONone | OPts (pts : list (list fl)) | OOther.
 Inductive case := CScript (ops : list (cm_op Q)) (results : list (result obs)).
 
 (* run the model with the stored pairs snapped to dyadics after every step (see K_C03.snap_state) *)
 Definition snap_cm (st : cm_state (F:=Q)) : cm_state (F:=Q) :=
   MkCM (cm_tags st) (cm_points st) (snap_state (cm_tr st)).
+(* magnitude of the steps between two tag positions (either direction): product of max(1, largest |entry|) *)
+Definition between_mag (st : cm_state (F:=Q)) (a b : string) : Q :=
+  match tag_lookup a (cm_tags st), tag_lookup b (cm_tags st) with
+  | Some i, Some j =>
+      let lo := Nat.min i j in let hi := Nat.max i j in
+      let sel := firstn (hi - lo) (skipn lo (cm_tr st)) in
+      Qmax' (steps_mag sel false) (steps_mag sel true)
+  | _, _ => 1
+  end.
+Definition read_mag (st : cm_state (F:=Q)) (o : cm_op Q) : Q :=
+  match o with
+  | CDoTransform _ a b => between_mag st a b
+  | CGetAttr n => match cm_points st with Some (tag, _) => between_mag st tag n | None => 1 end
+  | _ => 1
+  end.
 Fixpoint run (ops : list (cm_op Q)) (st : cm_state (F:=Q)) : list (result (cm_out Q) * Q) :=
   match ops with
   | [] => []
   | o :: r => let sr := cm_step QOps st o in
-              (snd sr, state_mag (cm_tr st)) :: run r (snap_cm (fst sr))
+              (snd sr, read_mag st o) :: run r (snap_cm (fst sr))
   end.
 
-Definition op_mag (o : cm_op Q) : Q :=
-  match o with CDoTransform pts _ _ => pts_mag pts | _ => 1 end.
 Definition out_agree (mag : Q) (m : cm_out Q) (o : obs) : bool :=
   match m, o with
   | OutNone, ONone => true
-  | OutPoints ps, OPts rows => vecs_close_mag (mag * Qmax' 1 (pts_mag ps)) ps rows
+  | OutPoints ps, OPts rows => vecs_close_mag (mag * pts_mag ps) ps rows
+  | OutOther, OOther => true
   | _, _ => false
   end.
 Definition check_case (c : case) : bool :=
   match c with
   | CScript ops results =>
-      all2 (fun mr o => res_agree (out_agree (snd mr * snd mr)) (fst mr) o) (run ops (cm_init (F:=Q))) results
+      all2 (fun mr o => res_agree (out_agree (snd mr)) (fst mr) o) (run ops (cm_init (F:=Q))) results
   end.
